@@ -212,6 +212,25 @@ def rule_read(c, prog):
         c.ok(R, "base64:whitespace-stripped")
     else:
         c.violation(R, "base64|strip", "read_base64_characters no longer removes every whitespace character before decoding (line-wrapped base64 from other writers would be rejected)", rb.sp, instance="base64:whitespace-stripped")
+    # the text is decoded as one piece: base64 groups of four characters may straddle a line break, so decoding line
+    # by line (or chunk by chunk) fails for every wrap width that is not a multiple of four
+    dec = [x for x in core.walk_fn(rb) if x.get("k") == "Call" and (core.callee(x) or "").startswith("base64::decode")]
+    in_iter = []
+    for lp in core.walk_fn(rb):
+        bodies = []
+        fl = core.as_for(lp)
+        if fl is not None and lp.get("k") != "DropTemps":
+            bodies.append(fl[2])
+        elif lp.get("k") == "Loop" and lp.get("src") != "ForLoop":
+            bodies.append(lp)
+        elif lp.get("k") == "Closure":
+            bodies.append(lp["body"])
+        for b in bodies:
+            in_iter += [x for x in dec if any(y is x for y in core.walk(b))]
+    if dec and not in_iter:
+        c.ok(R, "base64:decoded-as-one-piece")
+    else:
+        c.violation(R, "base64|piecewise", "read_base64_characters decodes the text piece by piece (the decode call sits in a loop / iterator closure) or not at all: a base64 quantum split across two lines — any wrap width that is not a multiple of 4 — is rejected", rb.sp, instance="base64:decoded-as-one-piece")
     n_sites = 0
     for f in prog.lib_fns():
         if f.crate != "rbx_xml" or f.body is None or f.path == rb.path:
@@ -238,7 +257,13 @@ def rule_read(c, prog):
         c.violation(R, "unknown-type", "read_value_xml no longer skips unknown type elements with eat_unknown_tag", rv.sp, instance="unknown-type:eaten")
 
 
+def rule_scratch(c, prog, R="C05.scratch"):
+    fns = [f for f in prog.lib_fns() if f.crate == "rbx_xml" and ("::serializer" in f.path or "::types::" in f.path)]
+    common.rule_scratch(c, prog, R, fns, what="entry")
+
+
 def run(c, prog):
+    rule_scratch(c, prog)
     rule_tags(c, prog)
     rule_doc(c, prog)
     rule_read(c, prog)
